@@ -1221,6 +1221,13 @@ impl Core {
 			},
 		)?;
 
+		// A repair during replay replaces the newest segment file (or removes it
+		// when it holds no valid record). The writer opened in CoreInner::new still
+		// refers to the old, now unlinked file: commits appended there would be
+		// lost at the next crash. Reopen the WAL on what is on disk now.
+		*inner.wal.write() =
+			Wal::open_with_min_log_number(&wal_path, min_wal_number, wal::Options::default())?;
+
 		// Set recovered memtable as active (if any)
 		if let Some(memtable) = recovered_memtable {
 			let mut active_memtable = inner.active_memtable.write()?;
@@ -1614,6 +1621,14 @@ impl Tree {
 				);
 				Ok(())
 			},
+		)?;
+
+		// As in Core::new: a repair during replay replaced the segment file the
+		// writer opened above refers to; reopen it.
+		*self.core.inner.wal.write() = Wal::open_with_min_log_number(
+			&wal_path,
+			manifest_log_number,
+			wal::Options::default(),
 		)?;
 
 		// Set recovered memtable as active (if any)
